@@ -3,7 +3,6 @@ package h_gcsim
 import (
 	"context"
 	"fmt"
-	"runtime"
 	"time"
 
 	v3 "github.com/projectcalico/api/pkg/apis/projectcalico/v3"
@@ -31,10 +30,6 @@ func (x waiter) wake() {
 	case x.ch <- struct{}{}:
 	default:
 	}
-	// Let the woken goroutine run to its next blocking point right now, so that two runnable goroutines never
-	// overlap (an overlap would let the Go scheduler's preemption decide who consumes the runtime's seeded random
-	// stream first).
-	runtime.Gosched()
 }
 
 // ---------------------------------------------------------------- kubelet + CNI
@@ -604,7 +599,6 @@ func (i *informer) nodeAddedNow(obj *corev1.Node) {
 	for len(i.nodes) > 0 {
 		if f := i.deliverOne(&i.nodes); f != nil {
 			f() // the controller hears about the deletion (it acts on it only after its batch window)
-			runtime.Gosched()
 		}
 	}
 	if err := i.w.nodeIdx.Add(obj); err != nil {
@@ -685,7 +679,6 @@ func (i *informer) run(ctx context.Context) {
 		w.kickChecker()
 		for _, f := range notify { // last: wakes the controller
 			f()
-			runtime.Gosched()
 		}
 	}
 }
@@ -759,7 +752,6 @@ func (f *feed) onWrite(key model.Key) {
 
 func (f *feed) push(it *feedItem) {
 	f.pushed = append(f.pushed, it)
-	defer runtime.Gosched() // the controller takes the item off its queue before anything else happens
 	if it.status != nil {
 		f.w.gc.OnStatusForSim(*it.status)
 		return
